@@ -4,7 +4,7 @@ import re
 from analysis import (cmp_intervals, peel_await, Prov, Guards, fmt, fmt_short, walk, roots, short, comparison, find_calls, callee_matches,
                       must_pass, path_to, describe_path, normalised_cmp, const_int_of, contains_call)
 from facts import AnchorError, strip_closure
-from harness import Rule
+from harness import Rule, guarded
 import c13
 
 PID = "C04"
@@ -548,4 +548,5 @@ def r4(ctx):
 
 
 def run(ctx):
-    return [r1(ctx), r2(ctx), r3(ctx), r4(ctx)]
+    G = lambda l, f, *a: guarded("C04." + l, f, ctx, *a)
+    return G("R1", r1) + G("R2", r2) + G("R3", r3) + G("R4", r4)
